@@ -182,8 +182,12 @@ Advance ==
 
 \* Env_GenesisRootsFixed: the roots of boundaries 0 and below are the genesis root.
 \* A reorg reaches at most the previous epoch's boundary.
+\* Env_SyncRootShallow: the root that fixes the next sync committee (boundary of a period's first
+\* epoch) is not reorganised once that epoch is over - the controller, like the property, ties the
+\* sync committee duties to the current dependent root seen in the first epoch of the period.
 Reorg(b) ==
     /\ b >= 1 /\ b \in {Epoch(now) - 1, Epoch(now)}
+    /\ (b % EP = 0) => Epoch(now) = b
     /\ nReorg < MaxReorgs /\ depVer[b] < MaxVer
     /\ up => Settled
     /\ depVer' = [depVer EXCEPT ![b] = @ + 1]
